@@ -131,6 +131,104 @@ Proof.
       * intros j1 Ef. destruct (Found j1 Ef) as [A B]. split; [right|]; auto.
 Qed.
 
+(* ---------------------------------------------------------------- state updates that keep Marks *)
+
+Lemma Marks_dp s d' pred' umin' : Marks s ->
+  Marks (mkAug d' pred' (g_done s) (g_ontodo s) (g_todo s) (g_scan s) (g_ready s) umin').
+Proof. intros M. exact M. Qed.
+
+Lemma Marks_scan_snoc s d' pred' j : Marks s -> (j < n)%nat -> getn (g_done s) j n <> r ->
+  Marks (mkAug d' pred' (upd (g_done s) j r) (g_ontodo s) (g_todo s) (g_scan s ++ [j]) (g_ready s) (g_umin s)).
+Proof.
+  intros [Ld [Lo [Nt [Ht [Nrs Hrs]]]]] Hj NE. unfold Marks. cbn [g_done g_ontodo g_todo g_scan g_ready].
+  split; [rewrite upd_length; auto|]. split; auto. split; auto. split; [exact Ht|].
+  assert (Nin : ~ In j (g_ready s ++ g_scan s)) by (intros Hin; destruct (Hrs j Hin); contradiction).
+  split; [rewrite app_assoc; apply nodup_snoc; auto|].
+  intros k Hk. rewrite app_assoc in Hk. rewrite getn_upd, Ld.
+  destruct (Nat.eqb_spec k j) as [->|NEk]; cbn [andb].
+  - replace (j <? n)%nat with true by (symmetry; apply Nat.ltb_lt; auto). auto.
+  - apply in_app_iff in Hk as [Hk|[Ek|[]]]; [apply Hrs; auto|congruence].
+Qed.
+
+Lemma Marks_todo_snoc s d' pred' j : Marks s -> (j < n)%nat -> getn (g_ontodo s) j n <> r ->
+  Marks (mkAug d' pred' (g_done s) (upd (g_ontodo s) j r) (g_todo s ++ [j]) (g_scan s) (g_ready s) (g_umin s)).
+Proof.
+  intros [Ld [Lo [Nt [Ht [Nrs Hrs]]]]] Hj NE. unfold Marks. cbn [g_done g_ontodo g_todo g_scan g_ready].
+  split; auto. split; [rewrite upd_length; auto|].
+  assert (Nin : ~ In j (g_todo s)) by (intros Hin; destruct (Ht j Hin); contradiction).
+  split; [apply nodup_snoc; auto|]. split; [|split; [exact Nrs|exact Hrs]].
+  intros k Hk. rewrite getn_upd, Lo.
+  destruct (Nat.eqb_spec k j) as [->|NEk]; cbn [andb].
+  - replace (j <? n)%nat with true by (symmetry; apply Nat.ltb_lt; auto). auto.
+  - apply in_app_iff in Hk as [Hk|[Ek|[]]]; [apply Ht; auto|congruence].
+Qed.
+
+Lemma Marks_pop s jh srest : Marks s -> g_scan s = jh :: srest ->
+  Marks (mkAug (g_d s) (g_pred s) (g_done s) (g_ontodo s) (g_todo s) srest (g_ready s ++ [jh]) (g_umin s)).
+Proof.
+  intros [Ld [Lo [Nt [Ht [Nrs Hrs]]]]] ES. rewrite ES in Nrs, Hrs.
+  unfold Marks. cbn [g_done g_ontodo g_todo g_scan g_ready].
+  refine (conj Ld (conj Lo (conj Nt (conj Ht (conj _ _))))).
+  - rewrite <- app_assoc. exact Nrs.
+  - intros k Hk. rewrite <- app_assoc in Hk. apply Hrs. exact Hk.
+Qed.
+
+(* the refill of scan at a loop head (:363-393) *)
+Definition refill (s : aug_state) : aug_state * option nat :=
+  match g_scan s with
+  | [] => let '(umin, scan) := aug_min r n (g_d s) (g_done s) (g_todo s) inf [] in
+          let '(found, done') := aug_first_free r n y scan (g_done s) in
+          (mkAug (g_d s) (g_pred s) done' (g_ontodo s) (g_todo s) scan (g_ready s) umin, found)
+  | _ => (s, None)
+  end.
+
+Lemma aug_first_free_assigned : forall scan done,
+  fst (aug_first_free r n y scan done) = None -> forall j, In j scan -> getn y j n <> n.
+Proof.
+  induction scan as [|j sr IH]; intros done; cbn [aug_first_free]; [intros _ ? []|].
+  destruct (Nat.eqb_spec (getn y j n) n) as [E|NE]; [cbn; discriminate|].
+  intros H k [<-|Hk]; auto. eapply IH; eauto.
+Qed.
+
+Lemma refill_spec s : Marks s ->
+  let '(s1, found) := refill s in
+  g_pred s1 = g_pred s /\ g_todo s1 = g_todo s /\ g_ready s1 = g_ready s /\ g_d s1 = g_d s /\
+  (forall a, In a (g_scan s1) -> In a (g_scan s) \/ In a (g_todo s)) /\
+  (found = None -> Marks s1 /\ forall a, In a (g_scan s1) -> In a (g_scan s) \/ getn y a n <> n) /\
+  (forall j, found = Some j -> Bounds s1 /\ (j < n)%nat /\ getn y j n = n /\ In j (g_todo s)).
+Proof.
+  intros M. unfold refill. pose proof M as [Ld [Lo [Nt [Ht [Nrs Hrs]]]]].
+  destruct (g_scan s) as [|j0 sr] eqn:ES.
+  - pose proof (aug_min_marks (g_d s) (g_done s) (g_todo s) inf [] Nt (NoDup_nil _) (fun a H => False_ind _ H)) as AM.
+    destruct (aug_min r n (g_d s) (g_done s) (g_todo s) inf []) as [um sc]. destruct AM as [Nsc Hsc].
+    assert (Hsc' : forall a, In a sc -> (a < n)%nat /\ getn (g_done s) a n <> r /\ In a (g_todo s)).
+    { intros a Ha. destruct (Hsc a Ha) as [[]|[H1 H2]]. split; [apply Ht; auto|auto]. }
+    pose proof (aug_first_free_marks sc (g_done s) (fun a H => proj1 (Hsc' a H)) Ld) as FF.
+    pose proof (aug_first_free_assigned sc (g_done s)) as FA.
+    destruct (aug_first_free r n y sc (g_done s)) as [fo done']. destruct FF as [Ld' [Keep [AllN Found]]].
+    cbn [fst] in FA. rewrite app_nil_r in Nrs, Hrs.
+    assert (Nrs' : NoDup (g_ready s ++ sc)).
+    { clear - Nrs Nsc Hrs Hsc'. induction (g_ready s) as [|a l IHl]; cbn [app]; auto.
+      inversion Nrs; subst. constructor.
+      - intros Hin. apply in_app_iff in Hin as [Hin|Hin]; [contradiction|].
+        destruct (Hsc' a Hin) as [_ [N _]]. apply N. apply Hrs. left; auto.
+      - apply IHl; auto. intros; apply Hrs; right; auto. }
+    cbn [g_pred g_todo g_ready g_d g_scan]. split; auto. split; auto. split; auto. split; auto.
+    split; [intros a Ha; right; apply Hsc'; auto|]. split.
+    + intros ->. split; [|intros a Ha; right; apply FA; auto].
+      unfold Marks. cbn [g_done g_ontodo g_todo g_scan g_ready].
+      refine (conj Ld' (conj Lo (conj Nt (conj Ht (conj Nrs' _))))).
+      intros k Hk. apply in_app_iff in Hk as [Hk|Hk].
+      * split; [apply Hrs; auto|apply Keep, Hrs; auto].
+      * split; [apply Hsc'; auto|apply AllN; auto].
+    + intros j Ej. destruct (Found j Ej) as [A B]. split; [|split; [apply Hsc'; auto|split; [auto|apply Hsc'; auto]]].
+      unfold Bounds. cbn [g_done g_ontodo g_todo g_scan g_ready].
+      refine (conj Ld' (conj Lo (conj Nt (conj (fun k Hk => proj1 (Ht k Hk)) (conj Nrs' _))))).
+      intros k Hk. apply in_app_iff in Hk as [Hk|Hk]; [apply Hrs; auto|apply Hsc'; auto].
+  - split; auto. split; auto. split; auto. split; auto. split; [intros a Ha; left; rewrite ES in Ha; exact Ha|].
+    split; [intros _; split; [exact M|intros a Ha; left; rewrite ES in Ha; exact Ha]|discriminate].
+Qed.
+
 (* ---------------------------------------------------------------- the scan of an assigned row *)
 
 Lemma aug_relax_marks i1 u1 : forall row s,
